@@ -5,7 +5,7 @@ from harness import core
 from props import time_common as tc
 
 BASE = dict(MaxLen=3, MaxT=4, Lo=1, Small=set(), MaxLenS=2, MaxTS=3, Ds={0, 1, 2}, AbsLo=1, Terms={"C", "E", "U"}, AuxLen=1,
-            SpecKs={"N", "C", "E", "U"}, SpecTs={0, 2}, Hz=7, DispOps=set(), DispLen=1)
+            SpecKs={"N", "C", "E", "U", "X"}, SpecTs={0, 2}, Hz=7, DispOps=set(), DispLen=1)
 
 WINDOWS = ["take_with_time", "take_until_with_time", "take_until_abs", "skip_with_time", "skip_until_with_time", "skip_until_abs",
            "take_last_with_time", "skip_last_with_time"]
@@ -19,7 +19,10 @@ THOROUGH = [(WINDOWS, dict(MaxLen=4, MaxT=6, Ds={0, 1, 2, 3}, AbsLo=2, Hz=10)),
             (["timeout", "timeout_abs", "timeout_other", "timeout_abs_other"], dict(MaxLen=3, MaxT=4, AuxLen=2, Hz=8)),
             (["timeout_with_mapper", "timeout_with_mapper_other"], dict(MaxLen=2, MaxT=3, SpecTs={0, 1, 2}, Hz=7)),
             (WINDOWS + ["timeout", "timeout_other", "timeout_with_mapper"],
-             dict(MaxLen=2, MaxT=3, Hz=6, DispLen=2, DispOps=set(WINDOWS) | {"timeout", "timeout_other", "timeout_with_mapper"}))]
+             dict(MaxLen=2, MaxT=3, Hz=6, DispLen=2, DispOps=set(WINDOWS) | {"timeout", "timeout_other", "timeout_with_mapper"})),
+            # a cold source that notifies at its very subscription instant
+            (WINDOWS + ["timeout", "timeout_abs", "timeout_other", "timeout_with_mapper"],
+             dict(Lo=0, MaxLen=2, MaxT=2, SpecTs={0, 1}, AuxLen=1, Hz=5))]
 
 SIM = (WINDOWS + ["timeout", "timeout_abs"], dict(MaxLen=5, MaxT=7, Ds={0, 1, 2, 3, 5}, AbsLo=2, Hz=13))
 
@@ -29,7 +32,7 @@ def run(tier):
     groups = tc.run_groups(ck, QUICK if tier == "quick" else THOROUGH, BASE, tier)
     ck.exhaustive = True
     if tier == "thorough":
-        nsim = tc.simulate_and_replay(ck, SIM[0], dict(BASE, **SIM[1]), 40000, tier)
+        nsim = tc.simulate_and_replay(ck, SIM[0], dict(BASE, **SIM[1]), 20000, tier)
         ck.note("simulated_tie_free_scenarios", nsim)
     ck.rule = ("every source timeline (element times 1..MaxT non-decreasing: elements before, at and after every boundary, with "
                "and without same-instant companions; 0..MaxLen elements; ending in completion, error or nothing) x every "
